@@ -526,6 +526,8 @@ def concrete_value(x):
 
 
 def as_real(x):
+    if isinstance(x, _np.ndarray) and x.ndim == 0:
+        x = x[()]
     r = SymReal.of(x)
     if r is None:
         raise TypeError('not a number: %r' % (x,))
@@ -715,6 +717,10 @@ def eq(a, b, tol=None):
             return Clause(z3.BoolVal(False), z3.BoolVal(True))
         d = a.e - b.e
         return Clause(a.e == b.e, z3.Or(d > _rat(MARGIN), d < -_rat(MARGIN)))
+    if isinstance(a, _np.ndarray):
+        a = a[()]
+    if isinstance(b, _np.ndarray):
+        b = b[()]
     a, b = float(a), float(b)
     t = CTOL if tol is None else tol
     if math.isinf(a) or math.isinf(b):
@@ -738,14 +744,15 @@ def ge(a, b, tol=None):
     return le(b, a, tol)
 
 
-def lt(a, b):
+def lt(a, b, tol=None):
     if symbolic():
         a, b = as_real(a), as_real(b)
         if a.k != FIN or b.k != FIN:
             r = (a < b)
             return Clause(z3.BoolVal(bool(r)), z3.BoolVal(not bool(r)))
         return Clause(a.e < b.e, a.e > b.e + _rat(MARGIN))
-    return Clause(concrete=float(a) < float(b) + CTOL * (1 + abs(float(b))))
+    t = CTOL if tol is None else tol
+    return Clause(concrete=float(a) < float(b) + t * (1 + abs(float(b))) if not (math.isinf(float(a)) or math.isinf(float(b))) else float(a) < float(b))
 
 
 def true():
